@@ -330,6 +330,19 @@ func genC19(t *rapid.T) c19Case {
 			c.Queries = append(c.Queries, Q{Host: true, Hostname: h})
 		}
 	}
+	if chance(t, "block-queries", 3) {
+		c.Queries = append(c.Queries, genBlockQueries(t)...)
+	}
+	if chance(t, "long-rule", 4) {
+		// a rule text of more than a kilobyte, served before the fault
+		var ds []string
+		for i := 0; i < rapid.IntRange(70, 120).Draw(t, "long-rule-domains"); i++ {
+			ds = append(ds, fmt.Sprintf("site%04d.example", i))
+		}
+		c.Lists[0].Text += "\nab$domain=example.org|" + strings.Join(ds, "|") + "\n/longrule" + strings.Repeat("x", rapid.IntRange(1000, 1100).Draw(t, "long-pattern")) + "\n"
+		c.Queries = append(c.Queries, Q{URL: "http://x.com/ab", Src: "http://example.org/", Typ: "script"}, Q{URL: "http://x.com/longrule" + strings.Repeat("x", 1100), Typ: "image"},
+			Q{URL: "http://x.com/ab", Src: "http://site0003.example/", Typ: "script"})
+	}
 	if chance(t, "domain-walk", 3) {
 		// the second query walks from a bucket loaded by the first one into one that is not loaded yet
 		c.Queries = append(c.Queries, Q{URL: "http://x.com/ab", Src: "http://example.org/", Typ: "script"},
